@@ -203,6 +203,27 @@ def check_system(s: Any, names: Sequence[str], linenos: Dict[int, Tuple[str, int
                 gd = model.get_docstring(target)[0]
                 if (gd or None) != want['doc'][n]:
                     out.append(('inherited-docstring', '%s: docstring of %s.%s is %r, inspect.getdoc gives %r' % (desc, names[i], n, gd, want['doc'][n])))
+        # the same attribution as it is *shown*: the table of inherited members and the "overrides" note of an own member
+        try:
+            from pydoctor.templatewriter import pages, util
+            from pydoctor.stanutils import flatten
+            import re as _re
+            shown_inh = {m.name: idx_of.get(m.parent.fullName(), -1) for m in util.inherited_members(cls)}
+            for n, widx in want['where'].items():
+                if widx != i and n in shown_inh and shown_inh[n] != widx:
+                    out.append(('shown-attribution', '%s: the inherited members of %s list %r from %s, Python finds it in %s' % (desc, names[i], n, names[shown_inh[n]] if shown_inh[n] >= 0 else '?', names[widx])))
+                if widx == i:
+                    # next class along Python's order that defines the name itself
+                    nxt = [j for j in want['mro'][1:] if j >= 0 and oracle[j] is not None and not oracle[j].get('error') and oracle[j]['where'].get(n) == j]
+                    html = ''.join(flatten(x) for x in pages.get_override_info(cls, n))
+                    m_ = _re.search(r'overrides <code><a [^>]*>([^<]+)</a>', html)
+                    shown = m_.group(1) if m_ else None
+                    expect = (names[nxt[0]] + '.' + n) if nxt else None
+                    if shown != expect and not (expect is None and shown is None):
+                        out.append(('shown-attribution', '%s: the page of %s says %s.%s overrides %s, along Python\'s order it overrides %s' % (desc, names[i], names[i], n, shown, expect)))
+        except Exception as e:
+            import traceback
+            out.append(('shown-attribution-raises', '%s: %s\n%s' % (desc, e, traceback.format_exc()[-500:])))
     return out
 
 
